@@ -621,7 +621,8 @@ def g_digest(rng, n=128):
 
 PATHS = ["a", "a/b", "dir/file.txt", "", "/", "//", "a//b", "../x", "..", ".", "./a", "/abs", "trail/", "v1/content/../x",
          "v1/content/a", "v2/content/a", "v0/content/x", "v99999999999/content/x", "v01/content/x", "v1", "v1/", "content",
-         "extensions/0005-mutable-head/head/content/r1/x", "a\\b", "é", " ", "a/b/c/d/e/f/g/h", "x" * 300, "\u2028"]
+         "extensions/0005-mutable-head/head/content/r1/x", "a\\b", "é", " ", "a/b/c/d/e/f/g/h", "x" * 300, "\u2028",
+         "\u00fc1/content/file1.txt", "\u221a1/content/x", "\U0001F600/content/x", "v\u00e9/content/x", "\u00e9"]
 
 
 def g_path(rng):
@@ -676,7 +677,9 @@ CREATED = ["2021-01-01T00:00:00Z", "", "2021", "2021-01-01", "2021-01-01T00:00:0
            "2021-01-01T00:00:60Z", "２０２１-01-01T00:00:00Z"]
 VKEYS = ["v1", "v2", "v3", "v01", "v02", "v001", "v0", "v00", "v", "V1", "1", "", "v-1", "v1 ", "v+1", "v1.0", "v4", "v7", "v10",
          "v4294967296", "v99999999999", "v00000000000000000000000000000001", "v١", "vv1",
-         "v4294967295", "v4294967294", "v400000000", "v104", "v0004294967295", "v" + "0" * 66000 + "3"]
+         "v4294967295", "v4294967294", "v400000000", "v104", "v0004294967295", "v" + "0" * 66000 + "3",
+         # a multi-byte character where the parser expects the ASCII "v" / a digit (byte-offset slicing)
+         "\u00e91", "\u221a1", "\U0001F6001", "v\u00e9", "\u00e9", "v1\u00e9", "\u0301v1"]
 
 
 def g_user(rng):
@@ -749,7 +752,8 @@ def fam_grammar(rng, obj):
 
 ABSURD = {
     "head": ["v0", "v00", "v4294967295", "v4294967296", "v99999999999", "v01", "v2", "v9", "v", "V1", "1", "", "v-1", "v1 ", 5, None,
-             "v0000000001", "v000000000000000000001", "v" + "0" * 65536 + "1", "v" + "0" * 70000 + "7"],
+             "v0000000001", "v000000000000000000001", "v" + "0" * 65536 + "1", "v" + "0" * 70000 + "7",
+             "\u00e91", "\u221a1", "\U0001F6001", "v\u00e9", "\u00e9"],
     "id": ["", " ", "a" * (1 << 20), "\u0001", "urn:x", "http://[::1", "%zz", "a:b:c:d", 5, None, [], "💾"],
     "type": ["", "https://ocfl.io/1.1/spec/#inventory", "https://ocfl.io/9.9/spec/#inventory", "x", 5, "https://ocfl.io/1.0/spec/#inventory "],
     "digestAlgorithm": ["sha256", "sha512", "md5", "sha1", "blake2b-512", "sha512/256", "SHA512", "", "sha-512", 5],
@@ -767,7 +771,7 @@ ABSURD = {
 }
 ABSURD_VKEY = ["v0", "v00", "v01", "v02", "v2", "v3", "v5", "v9", "v1000", "v200000", "v", "", "x", "V1", "v4294967296",
                "v99999999999", "v0001", "v1 ", "v4294967295", "v4294967294", "v400000000", "v0004294967295", "v102", "v103", "v104",
-               "v105", "v" + "0" * 65536 + "2", "v" + "0" * 70000 + "9"]
+               "v105", "v" + "0" * 65536 + "2", "v" + "0" * 70000 + "9", "\u00e91", "\u221a1", "\U0001F6001", "v\u00e9", "\u00e9"]
 ABSURD_DIGEST = ["", "zz", "{U}", "{S}", "{L}", "g" * 128, "{O}"]
 GENERIC = [5, -1, 1e308, Raw("1e999"), Raw("123456789012345678901234567890"), True, None, "", "x", [], O(),
            Raw("[" * 200 + "]" * 200), Raw('{"a":' * 200 + "1" + "}" * 200), Raw('"\\ud800"'), Raw('"\\u0000"')]
@@ -1044,7 +1048,8 @@ GAP_KEYS = [["v1", "v101"], ["v1", "v102"], ["v1", "v103"], ["v101"], ["v102"], 
             ["v4294967295", "v1"], ["v103", "v1"], ["v1", "v00103", "v4294967295"],
             # zero-padded keys next to the maximum of their width (v0999, v00099999), after a large gap and before keys past it
             ["v0950", "v1005"], ["v1", "v0950", "v1005"], ["v0998", "v0999", "v1000"], ["v0500", "v0999", "v1000", "v1101"],
-            ["v00099990", "v100010"], ["v001", "v0950", "v01005", "v1100"], ["v099", "v100", "v0300", "v1000"]]
+            ["v00099990", "v100010"], ["v001", "v0950", "v01005", "v1100"], ["v099", "v100", "v0300", "v1000"],
+            ["v1", "\u00e92"], ["\u221a1"], ["v1", "v2", "\U0001F6003"]]
 
 
 def gen_vkeys(rng):
@@ -1087,7 +1092,7 @@ def gen_vkeys(rng):
         return rng.sample(["v1", "v01", "v2", "v002", "v3"], rng.randint(2, 5))
     if r < 0.95:
         ks = ["v1", "v2"] + rng.sample(["v0", "v", "x", "", "v4294967296", "V3", "v3 ", "v-1", "v00", "v4294967295x",
-                                         'v"3', "v3\t", "v\\3", "v3\u0000"], rng.randint(1, 3))
+                                         'v"3', "v3\t", "v\\3", "v3\u0000", "\u00e93", "\u221a3", "\U0001F6003"], rng.randint(1, 3))
         rng.shuffle(ks)
         return ks
     return []
@@ -1149,7 +1154,7 @@ HDR = {
     "type": ["https://ocfl.io/1.0/spec/#inventory", "https://ocfl.io/1.0/spec/#inventory", "https://ocfl.io/1.1/spec/#inventory",
              "foo", "", 5, MISSING, 'q"'],
     "digestAlgorithm": ["KEEP", "KEEP", "KEEP", "md5", "sha1", "blake2b-512", "SHA512", "", 5, MISSING, "sha512/256", "sha\\512"],
-    "head": ["KEEP", "KEEP", "KEEP", "v1", "v03", "v0", "v", "", 3, "v99", MISSING, "v4294967296", "v3\t"],
+    "head": ["KEEP", "KEEP", "KEEP", "v1", "v03", "v0", "v", "", 3, "v99", MISSING, "v4294967296", "v3\t", "\u00e91", "\u221a1"],
     "contentDirectory": ["KEEP", "KEEP", MISSING, "", ".", "..", "a/b", "/", 5, "c\\d", "other", "content"],
     "manifest": ["KEEP", "KEEP", "KEEP", "KEEP", 5, "x", [], MISSING],
     "versions": ["KEEP", "KEEP", "KEEP", "KEEP", 5, "x", [], MISSING],
